@@ -38,6 +38,8 @@ type watcher struct {
 	calls  int
 	cancel context.CancelFunc
 	inc    int
+	atReg  string // what the node showed for the key when the watcher registered
+	prefix bool
 }
 
 type sim struct {
@@ -61,6 +63,7 @@ type sim struct {
 	// (generator "contended-rewrites", see the known finding on destructive conflict resolution).
 	rewrites    bool
 	onceWritten map[int]bool
+	notify      time.Duration // the nodes' NotifyInterval
 }
 
 var poolToken = regexp.MustCompile(` ?90000[0-2]`)
@@ -194,15 +197,29 @@ func (s *sim) addWatcher() {
 	} else {
 		cl = s.net.Client(i, ring.GetPartitionRingCodec())
 	}
-	go cl.WatchKey(ctx, key, func(v interface{}) bool {
+	w.atReg = s.net.Visible(i, key)
+	seen := func(v interface{}) bool {
 		w.mu.Lock()
 		w.last = simnet.Canon(v, true)
 		w.calls++
 		w.mu.Unlock()
 		return true
-	})
+	}
+	if s.rng.IntN(2) == 0 {
+		// a prefix watcher (first two characters of the key), judged on this key only
+		w.prefix = true
+		go cl.WatchPrefix(ctx, key[:2], func(k string, v interface{}) bool {
+			if k != key {
+				return true
+			}
+			return seen(v)
+		})
+	} else {
+		go cl.WatchKey(ctx, key, seen)
+	}
+	synctest.Wait() // registered before anything else happens
 	s.watchers = append(s.watchers, w)
-	s.log("r%d watch %s on n%d", s.round, key, i)
+	s.log("r%d watch %s on n%d (prefix watcher: %v)", s.round, key, i, w.prefix)
 }
 
 // gossipRound: every node's pending broadcasts go through the adversary.
@@ -313,13 +330,16 @@ func undecodable(msg []byte) bool {
 func runCluster(t *testing.T, run *vt.Run, c vt.CaseID, rng *rand.Rand, gossipOnly, rewrites bool) {
 	synctest.Test(t, func(t *testing.T) {
 		n := 2 + rng.IntN(5)
-		net, err := simnet.New(n, simnet.DefaultConfig(time.Hour))
+		kvCfg := simnet.DefaultConfig(time.Hour)
+		// watchers notified at once, or collected and flushed every NotifyInterval
+		kvCfg.NotifyInterval = []time.Duration{0, 0, 500 * time.Millisecond, 3 * time.Second}[rng.IntN(4)]
+		net, err := simnet.New(n, kvCfg)
 		if err != nil {
 			run.Inconclusive(err.Error())
 			return
 		}
 		defer net.Stop()
-		s := &sim{net: net, rng: rng, n: n, group: make([]int, n), stats: map[string]int{}, rewrites: rewrites, onceWritten: map[int]bool{}}
+		s := &sim{net: net, rng: rng, n: n, group: make([]int, n), stats: map[string]int{}, rewrites: rewrites, onceWritten: map[int]bool{}, notify: kvCfg.NotifyInterval}
 		s.line = gossipOnly && rng.IntN(2) == 0
 		viol := func(sig, what string, extra map[string]any) {
 			d := map[string]any{"nodes": n, "gossip_only": gossipOnly, "journal": tail(s.journal, 120), "stats": s.stats}
@@ -470,7 +490,7 @@ func runCluster(t *testing.T, run *vt.Run, c vt.CaseID, rng *rand.Rand, gossipOn
 			s.gossipRound(0, true, false)
 		}
 		synctest.Wait()
-		time.Sleep(time.Second)
+		time.Sleep(time.Second + 2*s.notify)
 		synctest.Wait()
 		// ---- judgement
 		for _, key := range []string{simnet.RingKey, simnet.PartKey} {
@@ -518,11 +538,17 @@ func runCluster(t *testing.T, run *vt.Run, c vt.CaseID, rng *rand.Rand, gossipOn
 			w.mu.Lock()
 			last, calls := w.last, w.calls
 			w.mu.Unlock()
+			fin := net.Visible(w.node, w.key)
 			if calls == 0 {
+				// never called: fine only if the node's value is what it was when the watcher registered
+				if fin != w.atReg {
+					s.stats["watchers_checked"]++
+					viol("watcher-never-called", fmt.Sprintf("watcher of %q on n%d (prefix watcher: %v) was never called although the node's value changed after it registered", w.key, w.node, w.prefix), map[string]any{"at_registration": w.atReg, "final": fin, "notify_interval": s.notify.String()})
+				}
 				continue
 			}
 			s.stats["watchers_checked"]++
-			if fin := net.Visible(w.node, w.key); last != fin {
+			if last != fin {
 				viol("watcher-stale", fmt.Sprintf("watcher of %q on n%d last saw a value that differs from the node's final value", w.key, w.node), map[string]any{"last_seen": last, "final": fin, "calls": calls})
 			}
 			w.cancel()
@@ -733,7 +759,7 @@ func truncations(t *testing.T, run *vt.Run, c vt.CaseID, rng *rand.Rand) {
 
 func TestC06(t *testing.T) {
 	run := vt.NewRun("C06", "fault_enumeration")
-	run.SetRule("case = one seeded adversarial schedule on 2-6 gossip KV nodes detached from the transport (verif hook), inside a synctest bubble: acknowledged CAS on the instance ring and the partition ring on any node, gossip rounds where the adversary decides per (message, destination) deliver / drop (p in {0,.3,.9}) / duplicate / delay and reorder / block by partition, push/pull exchanges, partitions and heals, node restarts, watcher registration, malformed messages (only ones the public codec rejects), virtual time advances; then a bounded recovery (all delayed messages, 2(N-1) push/pull exchanges along a chain, 12 lossless full-fan-out gossip rounds) and the judgement: all nodes expose the same value per key, every acknowledged CAS is dominated by every node's stored state, every watcher's last value is its node's final value, Invalidates(new, old) only when new contains old, malformed messages leave the stored state unchanged and do not crash. A second mode runs lossless full-fan-out gossip only (no push/pull) where divergence would reveal lost queue entries. non-trivial = more than one acknowledged CAS; distinct by journal; distinct fault-statistics vectors counted.")
+	run.SetRule("case = one seeded adversarial schedule on 2-6 gossip KV nodes detached from the transport (verif hook), inside a synctest bubble: acknowledged CAS on the instance ring and the partition ring on any node, gossip rounds where the adversary decides per (message, destination) deliver / drop (p in {0,.3,.9}) / duplicate / delay and reorder / block by partition, push/pull exchanges, partitions and heals, node restarts, watcher registration, malformed messages (only ones the public codec rejects), virtual time advances; then a bounded recovery (all delayed messages, 2(N-1) push/pull exchanges along a chain, 12 lossless full-fan-out gossip rounds) and the judgement: all nodes expose the same value per key, every acknowledged CAS is dominated by every node's stored state, every watcher (key and prefix watchers; nodes notify at once or every NotifyInterval in {0.5 s, 3 s}) has been called if the node's value changed after it registered and its last value is the node's final value, Invalidates(new, old) only when new contains old, malformed messages leave the stored state unchanged and do not crash. A second mode runs lossless full-fan-out gossip only (no push/pull) where divergence would reveal lost queue entries. non-trivial = more than one acknowledged CAS; distinct by journal; distinct fault-statistics vectors counted.")
 	run.Assume("tombstone retention (1 h) is longer than any schedule, so late stale deliveries cannot legitimately resurrect entries")
 	run.ForEachT(t, "adversarial", vt.N(700, 25000), func(t *testing.T, c vt.CaseID, rng *rand.Rand, s *vt.Slot) {
 		s.Enter(c, "crash/adversarial")
